@@ -8,6 +8,9 @@
 (*           n as a fixed-width integer in the suite's byte order; 0 is       *)
 (*           refused                                                          *)
 (*  idu16    toy suite, every n in 0..65535: n mod q, an error iff that is 0  *)
+(*  wrapper  every function a suite crate re-exports returns, on the same     *)
+(*           arguments and random stream, what the generic function returns   *)
+(*           (all other bindings observe the generic functions only)          *)
 EXTENDS Integers, Sequences, TLC, Json, IOUtils
 
 CONSTANT Q
@@ -37,6 +40,8 @@ Laws(e) ==
     [] e.op = "idu16" ->
          (IF e.q # Q THEN {"field_mismatch"} ELSE {})
          \cup (IF e.q = Q /\ \E n \in 0..65535 : e.vals[n + 1] # (IF n % Q = 0 THEN -1 ELSE n % Q) THEN {"u16_to_identifier"} ELSE {})
+    [] e.op = "wrapper" ->
+         (IF ~e.equal THEN {"wrapper_differs_from_generic_" \o e.fn} ELSE {})
     [] OTHER -> {}
 
 TraceInit == l = 1 /\ bad = {}
